@@ -192,25 +192,8 @@ theorem C06_structured_index (d : List (List Nat)) (hne : ∀ ns ∈ d, ns ≠ [
 theorem C06_structured_merge {α} (isPoint : Bool) (d : List (List Nat))
     (hne : isPoint = false ∨ ∀ ns ∈ d, ns ≠ []) (G : Nat → α) (cb : List Nat → List α) (zero : α)
     (hcb : ∀ loc ∈ locationsIn (piecesShape d), cb loc = restrictField isPoint d G loc) :
-    mergeStructured isPoint d cb zero = wholeField (prodShape (mergedShape isPoint d)) G := by
-  apply List.ext_getElem?
-  intro g
-  unfold mergeStructured wholeField
-  by_cases hg : g < prodShape (mergedShape isPoint d)
-  · have hcov : ∃ loc ∈ locationsIn (piecesShape d), g ∈ pieceEntityIndices isPoint d loc := by
-      rw [mergedShape_eq] at hg
-      obtain ⟨loc, it, hloc, hit, hflat⟩ := structured_cover (if isPoint then 1 else 0) d
-        (hne.elim (fun h => Or.inl (by simp [h])) Or.inr) g hg
-      exact ⟨loc, (mem_locationsIn _ _).mpr hloc,
-        (mem_pieceEntityIndices isPoint d loc g).mpr ⟨it, hit, hflat⟩⟩
-    have := (mergeLoop_agree G (pieceEntityIndices isPoint d) cb (locationsIn (piecesShape d)) hcb
-      (List.replicate (prodShape (mergedShape isPoint d)) zero) (fun _ => False)
-      (fun _ h => h.elim) g (Or.inr ⟨by simpa using hg, hcov⟩)).1
-    rw [this]
-    simp [hg]
-  · have hlen := mergeLoop_length (pieceEntityIndices isPoint d) cb (locationsIn (piecesShape d))
-      (List.replicate (prodShape (mergedShape isPoint d)) zero)
-    rw [List.getElem?_eq_none (by rw [hlen]; simpa using hg), List.getElem?_eq_none (by simpa using hg)]
+    mergeStructured isPoint d cb zero = wholeField (prodShape (mergedShape isPoint d)) G :=
+  mergeStructured_whole isPoint d hne G cb zero hcb
 
 /-
   Full-strength statement (not proved; modelled as `Fc.structuredDecomposition`, tied to the code by
